@@ -18,6 +18,14 @@ def register(claim, na):
           "ExitStatus -> ProcessEnd arms preserve success / code / signal. Decided by compiler pattern semantics; nothing is executed.",
           "trusts nix's FromStr/TryFrom<i32> name table, std ExitStatus accessors, rustc THIR/MIR; signal numbers outside the first-class set are delegated to nix",
           "DESIGN.md section 5 C19")
+    claim("C16", "proof", "finite-structure round-trip theorem: compiler pattern semantics + constructor evaluation over the THIR of the Tag<->SerdeTag and Signal<->SerdeSignal conversions, all 41 file-event kinds enumerated from the compiled enums (both notify and sans_notify configurations in the thorough tier)",
+          "Exhaustive over every Tag shape (each tag kind, each of the 41 file-event kinds via its derived-Debug rendering, each exit "
+          "disposition with symbolic payloads, each first-class signal and Custom): decode(encode(t)) == t is established by evaluating "
+          "only patterns and constructors of the two From impls; decoder arms are kind-consistent, the fall-through is Tag::Unknown, and "
+          "every NonZero::new_unchecked is guarded. serde/serde_json themselves are trusted, so this is the conversion-layer theorem, not an "
+          "observation of serialised bytes.",
+          "trusts serde derive + serde_json for the Serde* mirror types, derived Debug output format, the NonZero invariant; payloads (paths, pids, metadata) are opaque values that the conversions only move",
+          "DESIGN.md section 5 C16")
     for p in ["C01", "C02", "C03", "C04", "C05", "C06", "C07", "C08", "C09", "C10", "C11", "C12", "C13", "C14",
-              "C15", "C16", "C17", "C18"]:
+              "C15", "C17", "C18"]:
         na(p, PENDING)
